@@ -43,6 +43,7 @@ def gen_function(modname, qualname, reg, theory=None):
         return dict(name=cname, obls=[], decls=[], error='function not found in the source', dropped=[], hash=None, paths=0)
     c = reg[cname]
     ex = Executor(modname, qualname, fn, c, reg, theory=theory)
+    ex.local_alias = _local_alias(cname, fn)
     try:
         ex.run()
         err = None
@@ -51,7 +52,36 @@ def gen_function(modname, qualname, reg, theory=None):
     except RecursionError:
         err = 'path explosion (recursion limit)'
     return dict(name=cname, obls=ex.obls, decls=ex.decl_lines(), error=err, dropped=ex.dropped,
-                hash=core.fn_hash(fn) + '.' + core.class_context(mod) + _inlined_hash(ex), paths=ex.paths)
+                hash=core.fn_hash(fn) + '.' + core.class_context(mod) + _inlined_hash(ex), paths=ex.paths,
+                bindings=core.binding_names(fn))
+
+
+_BASE = None
+
+
+def _local_alias(cname, fn):
+    """contract-local name -> name of the same binding site in the current source (a consistent renaming of a local keeps its
+    loop invariants): the baseline records the binding sites of the function in order; a name that no longer occurs in the
+    function is looked up at its old position"""
+    global _BASE
+    if _BASE is None:
+        import json
+        try:
+            _BASE = json.load(open(os.path.join(os.path.dirname(os.path.dirname(os.path.dirname(os.path.abspath(__file__)))),
+                                                'baseline_obligations.json')))
+        except (OSError, ValueError):
+            _BASE = {}
+    old = _BASE.get(cname, {}).get('bindings')
+    cur = core.binding_names(fn)
+    if not old or len(old) != len(cur):
+        return {}
+    alias = {}
+    for o, n in zip(old, cur):
+        if o != n:
+            if alias.get(o, n) != n or o in cur:
+                return {}          # not a consistent renaming
+            alias[o] = n
+    return alias
 
 
 def _inlined_hash(ex):
